@@ -24,7 +24,7 @@ def gen_history(rng, n):
     for _ in range(n):
         r = rng.random()
         if r < 0.30:
-            evs.append(rng.choice(["x11:1", "x11:0", "agent", "fwd:1", "fwd:1", "fwd:0", "cancel", "cancel"]))
+            evs.append(rng.choice(["x11:1", "x11:0", "agent", "fwd:1", "fwdz:1", "fwd:0", "fwdz:0", "cancel", "cancel"]))
         elif r < 0.45:
             evs.append("g:%s:%d" % (hx(rng.choice(GLOBAL_KINDS)), rng.random() < 0.7))
         elif r < 0.80:
@@ -53,15 +53,19 @@ def run_history(ctx, evs):
         for ev in evs:
             case = {"history": evs, "at": ev}
             parts = ev.split(":")
+            if parts[0] == "fwdz":
+                parts = ["fwd"] + parts[1:]
             if parts[0] in ("x11", "agent", "fwd", "cancel"):
                 res = pair.action(ev)
                 replies.append("-")
+                # the oracle's record of what is enabled comes from what the scripted SERVER answered (granted or
+                # denied), not from what the client code under test reported back
                 if parts[0] == "x11" and parts[1] == "1":
-                    x11 = x11 or res == "ok"
+                    x11 = True
                 elif parts[0] == "agent":
                     agent = True
                 elif parts[0] == "fwd" and parts[1] == "1":
-                    fwd = fwd or res == "ok"
+                    fwd = True
                 elif parts[0] == "cancel":
                     fwd = False
                 want = "ok" if not (parts[0] in ("x11", "fwd") and parts[1] == "0") else "denied"
@@ -110,7 +114,7 @@ def run(ctx):
 
     L.quiet_logging()
     ctx.rule = ("histories of 1-10 events: client actions {request_x11 granted/denied, request_forward_agent, "
-                "request_port_forward granted/denied, cancel_port_forward} mixed with server-initiated GLOBAL_REQUEST (5 "
+                "request_port_forward granted/denied with an explicit port or port 0 (server-allocated; cancelled under the returned port), cancel_port_forward} mixed with server-initiated GLOBAL_REQUEST (5 "
                 "kinds, with/without want-reply), CHANNEL_OPEN (7 kinds) and CHANNEL_REQUEST (12 types) - each kind occurs "
                 "before and after enable / cancel; plus fixed histories per kind. non-trivial = the history contains a "
                 "server-initiated message after at least one client action")
@@ -125,6 +129,11 @@ def run(ctx):
         ["o:%s:1" % hx(b"forwarded-tcpip"), "fwd:0", "o:%s:2" % hx(b"forwarded-tcpip"), "fwd:1",
          "o:%s:3" % hx(b"forwarded-tcpip"), "cancel", "o:%s:4" % hx(b"forwarded-tcpip"), "fwd:1",
          "o:%s:5" % hx(b"forwarded-tcpip")],
+        ["fwdz:1", "o:%s:1" % hx(b"forwarded-tcpip"), "cancel", "o:%s:2" % hx(b"forwarded-tcpip"), "fwdz:0",
+         "o:%s:3" % hx(b"forwarded-tcpip"), "fwd:1", "fwdz:1", "cancel", "o:%s:4" % hx(b"forwarded-tcpip")],
+        # several forwards cancelled one by one (one shared handler: the first cancel already disables forwarding)
+        ["fwd:1", "fwdz:1", "o:%s:1" % hx(b"forwarded-tcpip"), "cancel", "o:%s:2" % hx(b"forwarded-tcpip"), "cancel",
+         "o:%s:3" % hx(b"forwarded-tcpip"), "fwdz:1", "cancel", "cancel", "o:%s:4" % hx(b"forwarded-tcpip")],
         ["r:%s:1" % hx(k) for k in REQ_KEYS],
         ["agent", "x11:1", "fwd:1"] + ["r:%s:1" % hx(k) for k in REQ_KEYS[:8]] + [
             "g:%s:1" % hx(k) for k in GLOBAL_KINDS],
@@ -138,7 +147,7 @@ def run(ctx):
         acted = False
         nt = False
         for ev in h:
-            if ev.split(":")[0] in ("x11", "agent", "fwd", "cancel"):
+            if ev.split(":")[0] in ("x11", "agent", "fwd", "fwdz", "cancel"):
                 acted = True
             elif acted:
                 nt = True
